@@ -53,18 +53,30 @@ theorem pof_tail (bufO : List Sto) (top lt lb t : Int) (ptr : Int → Option Ele
   · refine Or.inr (Or.inr (Or.inr ⟨e, h1, h2, ?_⟩))
     rw [← h4, getLast?_tail_of_length x A' (hne h2)]
 
+/-- while somebody else holds the lock the owner is not on its reset path -/
+theorem thief_not_resetting (s : St) (h : Inv s) (p : Pid) (hl : s.lock = .thief p) : resetting s.opc = false := by
+  have h0 : ownerLocked s.opc = false := by
+    cases ho : ownerLocked s.opc with
+    | false => rfl
+    | true => have := h.lockO.2 ho; rw [hl] at this; cases this
+  cases hpc : s.opc <;> simp [hpc, ownerLocked, resetting] at h0 ⊢
+
 macro "tso_simp_h" : tactic => `(tactic|
   simp only [ownerLocked, carry, resetting, ownerFlight] at *)
 
 macro "tso_finish" : tactic => `(tactic| (
     constructor
     all_goals (try simp only [ownerLocked, carry, resetting, ownerFlight, upd_apply, applySto])
-    all_goals (first | assumption | grind [thiefLocked, mayBuf, notTrans, thiefFlight, List.length_dropLast] | grind [thiefLocked, mayBuf, notTrans, thiefFlight, List.length_dropLast, getLast?_tail_of_length, CarryShape, Pu2Shape, PofShape, Po6Shape, Po8Shape, Po9Shape, TkfShape, Tk6Shape] | skip)))
+    all_goals (first | assumption | grind [thiefLocked, mayBuf, notTrans, thiefFlight, List.length_dropLast] | grind [thiefLocked, mayBuf, notTrans, thiefFlight, List.length_dropLast, getLast?_tail_of_length, CarryShape, Pu2Shape, PofShape, Po6Shape, Po8Shape, Po9Shape, InsShape, TkfShape, Tk6Shape] | skip)))
+
+/-- the closing part of `tso_finish`, for proofs that treat some clauses by hand after `constructor` -/
+macro "tso_rest" : tactic => `(tactic| (
+    all_goals (first | assumption | grind [thiefLocked, mayBuf, notTrans, thiefFlight, List.length_dropLast] | grind [thiefLocked, mayBuf, notTrans, thiefFlight, List.length_dropLast, getLast?_tail_of_length, upd_apply, CarryShape, Pu2Shape, PofShape, Po6Shape, Po8Shape, Po9Shape, InsShape, TkfShape, Tk6Shape] | skip)))
 
 /-- like `tso_finish`, with the shapes unfolded at once (flush steps) -/
 macro "tso_finish3" : tactic => `(tactic| (
     constructor
     all_goals (try simp only [ownerLocked, carry, resetting, ownerFlight, upd_apply, applySto])
-    all_goals (first | assumption | grind [thiefLocked, mayBuf, notTrans, thiefFlight, List.length_dropLast, getLast?_tail_of_length, upd_apply, CarryShape, Pu2Shape, PofShape, Po6Shape, Po8Shape, Po9Shape, TkfShape, Tk6Shape] | skip)))
+    all_goals (first | assumption | grind [thiefLocked, mayBuf, notTrans, thiefFlight, List.length_dropLast, getLast?_tail_of_length, upd_apply, CarryShape, Pu2Shape, PofShape, Po6Shape, Po8Shape, Po9Shape, InsShape, TkfShape, Tk6Shape] | skip)))
 
 end MythVerif.WsqTso
